@@ -85,6 +85,16 @@ SimplePairsOf(R) == LET n == Len(R) IN
                                                        Pat(R[((k - 1) % n) + 1], 1) >>, <<>>) >>,
                          simple |-> TRUE]]
 
+\* four patterns from the core (thorough tier)
+QuadsOf(R) == LET n == Len(R) IN
+  [k \in 1..(n * n * n * n) |-> OneMode(<< Pat(R[((k - 1) \div (n * n * n)) + 1], 4),
+                                          Pat(R[(((k - 1) \div (n * n)) % n) + 1], 9),
+                                          Pat(R[(((k - 1) \div n) % n) + 1], 0),
+                                          Pat(R[((k - 1) % n) + 1], 6) >>)]
+\* depth 3: one more unary operator on top of every regex of depth <= 2 (thorough tier)
+Unary3 == [k \in 1..(Len(R2) * NUnary) |-> Unary(((k - 1) % NUnary) + 1, R2[((k - 1) \div NUnary) + 1])]
+U_C01_quads   == TLCEval(QuadsOf(Core12))
+U_C01_depth3  == TLCEval(SinglesOf(Unary3))
 U_C01_pairs   == TLCEval(PairsOf(R1))
 U_C01_singles == TLCEval(SinglesOf(R2))
 U_C01_triples == TLCEval(TriplesOf(Core12))
